@@ -152,7 +152,8 @@ def sched_knobs(cfg):
             "start": lambda ch, ci: [0.0, 0.0, 0.5, 5.0][ch.draw("sched.start", 4)],
             "preempt_den": cfg["preempt_den"], "budget": 7200.0, "shared_headers": cfg.get("shared_headers", False),
             "debug_logging": cfg.get("debug_logging", False), "second_client": cfg.get("second_client", False),
-            "user_warnings_as_errors": cfg.get("user_warnings_as_errors", False), "response_hook": cfg.get("response_hook", False)}
+            "user_warnings_as_errors": cfg.get("user_warnings_as_errors", False), "response_hook": cfg.get("response_hook", False),
+            "classify_twice": cfg.get("classify_twice", False)}
 
 
 def _nonce_faults(callers):
@@ -525,7 +526,7 @@ def run_case(case, ch: Choices) -> RunResult:
     nmulti = sum(1 for r in recs if r.spec["multipart"])
     nfault = sum(1 for r in recs if r.spec.get("fault"))
     res.bump("calls", ncalls)
-    for k_ in ("upload_objects_sent_again", "model_objects_reused"):
+    for k_ in ("upload_objects_sent_again", "model_objects_reused", "model_lists_reused"):
         if info.get(k_):
             res.bump("caller." + k_, info[k_])
     ncancel = sum(1 for r in recs if r.outcome and r.outcome[0] == "cancelled")
